@@ -1050,6 +1050,55 @@ def analysis_before_first_call(chk, tier):
     chk.extra["analysis_before_first_call_scenarios"] = n
 
 
+def several_references(chk, tier):
+    """Directed: one predicate that refers to itself in SEVERAL places (lists by one reference, dict values by another,
+    tuples by a third) -- every reference denotes the same definition; inputs reach each of them."""
+    import predicate as P_
+
+    def ref(x):
+        if isinstance(x, str):
+            return True
+        if isinstance(x, list):
+            return all(ref(e) for e in x)
+        if isinstance(x, dict):
+            return all(ref(e) for e in x.values())
+        return False
+
+    vals = ["a", 1, [], ["a"], [1], {}, {"k": "a"}, {"k": 1}, {"k": ["a", "b"]}, {"k": [1]}, [{"k": "a"}], [{"k": 1}], {"k": {"j": "a"}}, {"k": {"j": 2}}, [["a"], {"k": ["b", {"j": "c"}]}],
+            [["a"], {"k": ["b", {"j": 3}]}], {"a": "x", "b": ["y", {"c": "z"}], "d": {}}]
+
+    def values_of(d):
+        return list(d.values())
+
+    def scenario(kind, order):
+        is_str_p, is_list_of_p, is_dict_p, all_p, comp_p = P_.is_str_p, P_.is_list_of_p, P_.is_dict_p, P_.all_p, P_.comp_p
+        mk = {"this": lambda: P_.this_p, "root": lambda: P_.root_p, "lazy": lambda: P_.lazy_p("P")}[kind]
+        if order == 0:
+            P = is_str_p | is_list_of_p(mk()) | (is_dict_p & comp_p(values_of, all_p(mk())))
+        else:
+            P = (is_dict_p & comp_p(values_of, all_p(mk()))) | is_list_of_p(mk()) | is_str_p
+        out = []
+        for v in vals:
+            try:
+                out.append(bool(P(v)))
+            except Exception as e:  # noqa: BLE001
+                out.append(type(e).__name__)
+        return out
+
+    want = [ref(v) for v in vals]
+    n = 0
+    for kind in ("this", "root", "lazy"):
+        for order in (0, 1):
+            got = scenario(kind, order)
+            n += 1
+            if got != want:
+                k = next(i for i, (a, b) in enumerate(zip(got, want)) if a != b)
+                chk.add_failure({"history": f"P with two {kind}_p references (lists and dict values), operand order {order}", "x": repr(vals[k])},
+                                {"what": "a predicate that refers to itself in two places does not denote its recursive definition", "P(x)": got[k], "expected": want[k]}, None)
+    chk.evaluations += n * len(vals)
+    chk.extra["several_references_scenarios"] = n
+
+
 def main(tier):
     chk = Check("C16", tier)
     chk.prove(checker=(tier == "thorough"), exes=("driver_scope",))
@@ -1210,6 +1259,7 @@ def main(tier):
                 fail_tab[key] = fail_tab.get(key, 0) + 1
                 chk.add_failure({"json_values": [repr(x[0]) for x in jvals], "value_index": pos % len(jvals), "callers_in_order": s, "caller": caller, "value": repr(v[0]), "source": json_source(caller, 1)[0]}, {"expected": e, "got": r, "what": "is_json_p depends on the names bound by its caller"}, explained)
     analysis_before_first_call(chk, tier)
+    several_references(chk, tier)
     chk.add_corr("scope/is_json_p", jn_cases, jdis, note=f"{len(seqs)} caller sequences x {len(jvals)} values")
     chk.evaluations += jn_cases
     # -- thorough: one canonical configuration per flavour on ALL nested lists of depth <= 3 / width <= 2
@@ -1260,9 +1310,10 @@ def replay(path):
     if not isinstance(inp, dict) or not isinstance(det, dict) or "expected" not in det:
         print(json.dumps(d, indent=1)[:4000])
         return 1
-    if "history" in inp:  # a directed history of analysis_before_first_call: re-enact all of them, look for this one
+    if "history" in inp:  # a directed history: re-enact all of them, look for this one
         chk = Check("C16", "replay")
         analysis_before_first_call(chk, "quick")
+        several_references(chk, "quick")
         hit = [f for f in chk.failures if f["input"] == inp]
         print(json.dumps(hit[0] if hit else {"the recorded history": "does not fail on this tree"}, indent=1, default=str)[:1500])
         return 1 if hit else 0
